@@ -21,6 +21,7 @@ RULE = ("seeded random networks (transmission / full_mix / weakly_meshed profile
         "scaling, ZIP loads, shunts with foreign vn and steps) x runpp options (enforce_q_lims, voltage_depend_loads on/off ...); "
         "every element row of a converged run is one oracle evaluation; non-trivial = converged and >= 10 rows judged")
 ASSUMPTIONS = ["tolerances: vm 1e-7 p.u. (NR with tolerance_mva=1e-8), va 1e-6 deg, powers 1e-8 + 1e-9*|S|, q-limit 1e-6 Mvar",
+               "the ext_grid angle clause is not applied to distributed_slack runs (one angle reference per island; the shares are C10's subject)",
                "slack gens, gens sharing a bus with an ext_grid and participants of distributed slack are exempt from the P set-point clause",
                "gs/fdbx/fdxb runs are judged with 2e-5 tolerances and are exempt from the ZIP law (known finding F1c of C01)"]
 
@@ -40,11 +41,11 @@ def check_setpoints(net, opts, cnt):
     ds = bool(opts.get("distributed_slack"))
     qlim = bool(opts.get("enforce_q_lims"))
     vdl = bool(opts.get("voltage_depend_loads", True))
-    angles = opts.get("calculate_voltage_angles", "auto")
-    if angles == "auto":
-        # documented rule: angles are calculated when a line touches a bus above 70 kV
-        hv = set(net.bus.index[net.bus.vn_kv > 70])
-        angles = bool(hv & (set(net.line.from_bus) & set(net.line.to_bus))) if len(net.line) else False
+    # domain of the angle clause: "when angles are calculated" - read the effective option of this run
+    angles = bool(net._options.get("calculate_voltage_angles", False))
+    if ds:
+        # with distributed slack only one angle reference exists per island (C10 fixes the power shares instead)
+        angles = False
 
     def V(rule, what, **w):
         viols.append(common.viol("%s: %s" % (rule, what), options=opts, **w))
